@@ -1096,6 +1096,14 @@ class Object( object ):
             # artifact, converting it into a reply.  All of these requests produce/consume a
             # sequence of unsigned bytes.
             data.service       |= 0x80
+            if 'path' in data:
+                # ... and it better be ours!  A path naming an Object that doesn't exist finds no
+                # route, and ends up here (eg. as a member of a Multiple Service Packet).
+                data.status	= 0x05		# Request Path destination unknown
+                clid,inid,_	= resolve( data.path )
+                assert clid == self.class_id and inid == self.instance_id, \
+                    "Path %r processed by wrong Object %r" % ( data.path['segment'], self )
+                data.status	= 0x08
             result		= b''
             if data.service == self.GA_ALL_RPY:
                 # Get Attributes All.  Collect up the bytes representing the attributes.  Replace
